@@ -368,6 +368,10 @@ def opaque_pairs(ctx: Ctx) -> None:
         def forward(self, x):
             return torch.tanh(x.sum(-1, keepdim=True)) + 0.25 * x[..., :1]
 
+    class CausalNet(torch.nn.Module):
+        def forward(self, x):
+            return torch.tanh(x.sum(-1, keepdim=True).cumsum(-2) / 4)
+
     seen = set()
     pairs = []
     for r in ctx._pair_recs:
@@ -382,7 +386,7 @@ def opaque_pairs(ctx: Ctx) -> None:
     for T, ps in byT.items():
         dtype = torch.float64
         cut = torch.tensor([r["cut"] for r in ps])
-        models = ["bs", "ww", "naked", "mlp", "mlp_prev", "user", "shared_extractor"]
+        models = ["bs", "ww", "naked", "mlp", "mlp_prev", "user", "user_causal", "shared_extractor"]
         sa = list(_opaque_setups(ps, "mA", dtype))
         sb = list(_opaque_setups(ps, "mB", dtype))
         for (label, dA), (_, dB) in zip(sa, sb):
@@ -406,6 +410,10 @@ def opaque_pairs(ctx: Ctx) -> None:
                     inputs = [ModuleOutput(ext, ["log_moneyness", "max_moneyness", "max_log_moneyness", "prev_hedge"]), "time_to_maturity"]
                     other = Hedger(torch.nn.Sequential(torch.nn.Linear(2, 1), torch.nn.Tanh()).to(dtype), inputs)
                     model = torch.nn.Sequential(torch.nn.Linear(2, 8), torch.nn.Tanh(), torch.nn.Linear(8, 1)).to(dtype)
+                elif mname == "user_causal":
+                    # a user module that looks BACK along the time dimension (a running sum, as a recurrent layer would): causal, so
+                    # the hedge stays non-anticipating, and the position at the final index is still the one held over the last step
+                    model = CausalNet(); inputs = ["log_moneyness", "time_to_maturity"]
                 else:
                     model = UserNet(); inputs = ["moneyness", "max_log_moneyness", "volatility"]
                 hedger = Hedger(model, inputs)
